@@ -6,8 +6,9 @@ import Mathlib.Tactic.Ring
 import Mathlib.Algebra.Ring.Basic
 import Qvnt.Lemmas.Queue
 import Qvnt.Lemmas.GenInt.MacrosDisjoint
+import Qvnt.Lemmas.GenInt.MacrosInv
 import Qvnt.Lemmas.GenInt.int_process_node_eq
-import Qvnt.Lemmas.GenInt.processNode_disjoint
+import Qvnt.Lemmas.GenInt.processNode_inv
 
 set_option linter.unusedSectionVars false
 namespace Qvnt.Gen2
@@ -17,7 +18,7 @@ section proc
 variable [Add R] [Sub R] [Mul R] [Neg R] [Div R] [ExprFns R] [AngleFns R]
 
 theorem foldlM_process [Zero R] [One R] [Consts R] (s : Interp R) (nodes : List (Node R)) (c : Interp R)
-    (hd : MacrosDisjoint s c) :
+    (hd : MacrosInv s c) :
     List.foldlM (fun ch n => int_process_node s ch n) c nodes = (Interp.processNodes s c nodes).toE := by
   induction nodes generalizing c with
   | nil => rfl
@@ -25,7 +26,7 @@ theorem foldlM_process [Zero R] [One R] [Consts R] (s : Interp R) (nodes : List 
     rw [List.foldlM_cons, int_process_node_eq s c hd]
     simp only [Interp.processNodes]
     cases h : Interp.processNode s c n with
-    | ok ch => exact ih ch (processNode_disjoint s c ch n hd h)
+    | ok ch => exact ih ch (processNode_inv s c ch n hd h)
     | err e => rfl
     | panic p => rfl
 
